@@ -63,6 +63,7 @@ from dask_expr._reductions import (
     ValueCounts,
 )
 from dask_expr._repartition import Repartition, RepartitionToFewer
+from dask_expr import _verif
 from dask_expr._util import LRU, _convert_to_list
 
 
@@ -1291,11 +1292,15 @@ def _get_divisions(
 ):
     key = (other._name, npartitions, ascending, partition_size, upsample)
     if key in divisions_lru:
+        if _verif.ENABLED:
+            _verif.emit("cache", name="divisions_lru", key=key, hit=True)
         return divisions_lru[key]
     result = _calculate_divisions(
         frame, other, npartitions, ascending, partition_size, upsample
     )
     divisions_lru[key] = result
+    if _verif.ENABLED:
+        _verif.emit("cache", name="divisions_lru", key=key, hit=False)
     return result
 
 
